@@ -1112,3 +1112,134 @@ Proof.
           [PBytes sig_7777]]%Z.
   eexists. split; [vm_compute; reflexivity|]. vm_compute. discriminate.
 Qed.
+
+(* ------------------------------------------------------------------------ *)
+(* whole messages, decoder side                                              *)
+(* ------------------------------------------------------------------------ *)
+Lemma starts_with_app g : forall s t, starts_with g s = true -> starts_with g (s ++ t) = true.
+Proof.
+  induction g as [|a g IH]; intros s t; [reflexivity|]. destruct s as [|b s]; [discriminate|].
+  cbn [starts_with app]. intros H. apply andb_true_iff in H as [H1 H2]. rewrite H1, (IH _ _ H2). reflexivity.
+Qed.
+
+Lemma starts_with_app_false g : forall s t, (length g <= length s)%nat ->
+  starts_with g s = false -> starts_with g (s ++ t) = false.
+Proof.
+  induction g as [|a g IH]; intros s t Hl; [discriminate|]. destruct s as [|b s]; [exfalso; cbn in Hl; lia|].
+  cbn [starts_with app]. intros H. apply andb_false_iff in H as [H|H]; [rewrite H; reflexivity|].
+  assert (Hl' : (length g <= length s)%nat) by (cbn in Hl; lia).
+  rewrite (IH _ t Hl' H). apply andb_false_r.
+Qed.
+
+Lemma starts_with_length g : forall s, starts_with g s = true -> (length g <= length s)%nat.
+Proof.
+  induction g as [|a g IH]; intros s; [cbn; lia|]. destruct s as [|b s]; [discriminate|].
+  cbn [starts_with length]. intros H. apply andb_true_iff in H as [_ H]. apply IH in H. lia.
+Qed.
+
+Lemma find_sig_length g : forall s i, find_sig g s = Some i -> (i + length g <= length s)%nat.
+Proof.
+  induction s as [|x s IH]; intros i; cbn [find_sig].
+  - destruct (starts_with g []) eqn:E; [|discriminate]. intros H; injection H as <-.
+    apply starts_with_length in E. lia.
+  - destruct (starts_with g (x :: s)) eqn:E.
+    + intros H; injection H as <-. apply starts_with_length in E. lia.
+    + destruct (find_sig g s) as [j|]; [|discriminate]. intros H; injection H as <-.
+      specialize (IH _ eq_refl). cbn [length]. lia.
+Qed.
+
+Lemma find_sig_app g : forall s i t, find_sig g s = Some i -> find_sig g (s ++ t) = Some i.
+Proof.
+  induction s as [|x s IH]; intros i t; cbn [find_sig app].
+  - destruct (starts_with g []) eqn:E; [|discriminate]. intros H; injection H as <-.
+    destruct g; [|discriminate]. destruct t; reflexivity.
+  - destruct (starts_with g (x :: s)) eqn:E.
+    + intros H; injection H as <-. change (x :: s ++ t) with ((x :: s) ++ t).
+      rewrite (starts_with_app _ _ t E). destruct t; reflexivity.
+    + destruct (find_sig g s) as [j|] eqn:Ej; [|discriminate]. intros H; injection H as <-.
+      change (x :: s ++ t) with ((x :: s) ++ t).
+      rewrite (starts_with_app_false g (x :: s) t); [|apply find_sig_length in Ej; cbn [length]; lia|exact E].
+      rewrite (IH _ t eq_refl). reflexivity.
+Qed.
+
+Section DecoderMessage.
+Variable decode_data : list (pname * pvalue) -> reader -> result (bits * reader).
+Hypothesis decode_data_prefix : forall p r b r', decode_data p r = Ok (b, r') -> r = b ++ r'.
+Hypothesis decode_data_suffix : forall p r b r' s,
+  decode_data p r = Ok (b, r') -> decode_data p (r ++ s) = Ok (b, r' ++ s).
+
+Lemma decode_sections_ok defs info ign idxs : forall props secs r secs' props' r',
+  decode_sections decode_data defs info ign idxs props secs r = Ok (secs', props', r') ->
+  exists e new, r = e ++ r' /\ secs' = secs ++ new /\ length e = sections_nbits new /\
+    forall s, decode_sections decode_data defs info ign idxs props secs (r ++ s) = Ok (secs', props', r' ++ s).
+Proof.
+  induction idxs as [|i idxs IH]; intros props secs r secs' props' r'; cbn [decode_sections]; [discriminate|].
+  intros H. apply bind_ok in H as (oc & Hc & H). rewrite Hc. cbn [bind]. destruct oc as [c|].
+  - apply bind_ok in H as ([[sec props1] r1] & Hs & H).
+    destruct (decode_section_ok decode_data decode_data_prefix decode_data_suffix _ _ _ _ _ _ Hs)
+      as (e1 & -> & Hn1 & _ & _ & _ & G1).
+    destruct (s_end c).
+    + injection H as <- <- <-. exists e1, [sec]. split; [reflexivity|]. split; [reflexivity|].
+      cbn [sections_nbits]. split; [lia|]. intros s. rewrite G1. reflexivity.
+    + apply IH in H as (e2 & new & -> & -> & Hl2 & G2).
+      exists (e1 ++ e2), (sec :: new). rewrite <- !app_assoc. split; [reflexivity|]. split; [reflexivity|].
+      cbn [sections_nbits]. rewrite app_length. split; [lia|].
+      intros s. rewrite G1. cbn [bind]. rewrite G2, <- app_assoc. reflexivity.
+  - apply IH in H as (e2 & new & -> & -> & Hl2 & G2). exists e2, new. auto.
+Qed.
+
+(* C04 decode_span: the bytes reported for the message are exactly the span that
+   was decoded (from the signature to the end of the last section), and neither
+   they nor anything else in the result depend on what follows that span *)
+Theorem decode_span : forall sig info ign s m,
+  decode_message decode_data sig info ign s = Ok m ->
+  (forall t, decode_message decode_data sig info ign (s ++ t) = Ok m) /\
+  exists before after,
+    s = before ++ m_bytes m ++ after /\
+    (8 * length (m_bytes m) <= sections_nbits (m_sections m) < 8 * length (m_bytes m) + 8)%nat /\
+    match sig with
+    | Some g => find_sig g s = Some (length before)
+    | None => before = []
+    end.
+Proof.
+  intros sig info ign s m. unfold decode_message, decode_message_with. intros H.
+  apply bind_ok in H as (idx & Hidx & H). apply bind_ok in H as ([[secs props] r'] & Hs & H).
+  apply ok_inj in H. subst m. unfold m_bytes, m_sections.
+  destruct (decode_sections_ok _ _ _ _ _ _ _ _ _ _ Hs) as (e & new & Er & -> & Hl & G).
+  change ([] ++ new) with new in *.
+  assert (Hidx_le : (idx <= length s)%nat).
+  { destruct sig as [g|]; [|injection Hidx as <-; lia].
+    destruct (find_sig g s) as [i|] eqn:Ei; [|discriminate]. injection Hidx as <-.
+    apply find_sig_length in Ei. lia. }
+  set (s1 := skipn idx s) in *.
+  assert (Lr : length (bits_of_bytes s1) = (8 * length s1)%nat) by apply length_bits_of_bytes.
+  assert (Le : (length (bits_of_bytes s1) - length r')%nat = length e) by (rewrite Er, app_length; lia).
+  assert (Hle : (length e / 8 <= length s1)%nat).
+  { assert (length e <= 8 * length s1)%nat by (rewrite <- Lr, Er, app_length; lia).
+    apply Nat.div_le_upper_bound; lia. }
+  split.
+  - intros t.
+    assert (Hidx' : match sig with
+                    | Some g => match find_sig g (s ++ t) with Some i => Ok i | None => Err ELib end
+                    | None => Ok 0%nat end = Ok idx).
+    { destruct sig as [g|]; [|exact Hidx]. destruct (find_sig g s) as [i|] eqn:Ei; [|discriminate].
+      rewrite (find_sig_app _ _ _ t Ei). exact Hidx. }
+    rewrite Hidx'. cbn [bind].
+    rewrite skipn_app. replace (idx - length s)%nat with 0%nat by lia. cbn [skipn]. fold s1.
+    rewrite bits_of_bytes_app, (G (bits_of_bytes t)). cbn [bind]. f_equal. f_equal.
+    + rewrite !app_length. replace (length (bits_of_bytes s1) + length (bits_of_bytes t) - (length r' + length (bits_of_bytes t)))%nat
+        with (length (bits_of_bytes s1) - length r')%nat by lia.
+      rewrite Le. rewrite firstn_app. replace (length e / 8 - length s1)%nat with 0%nat by lia.
+      cbn [firstn]. rewrite app_nil_r. reflexivity.
+  - exists (firstn idx s), (skipn (length e / 8) s1). rewrite Le.
+    split; [unfold s1; rewrite firstn_skipn, firstn_skipn; reflexivity|].
+    split.
+    { rewrite firstn_length, Nat.min_l by exact Hle. rewrite <- Hl.
+      pose proof (Nat.div_mod (length e) 8 ltac:(lia)). pose proof (Nat.mod_upper_bound (length e) 8 ltac:(lia)). lia. }
+    destruct sig as [g|].
+    + destruct (find_sig g s) as [i|]; [|discriminate]. injection Hidx as ->.
+      rewrite firstn_length, Nat.min_l by exact Hidx_le. reflexivity.
+    + injection Hidx as <-. reflexivity.
+Qed.
+
+End DecoderMessage.
